@@ -14,6 +14,7 @@ from .tlc import run_tlc, validate_observations
 MC_CFG = '''SPECIFICATION Spec
 CONSTANTS MaxParses = %d
  MaxBlocks = %d
+ DedupChunkHead = FALSE
 INVARIANT YieldsExact
 INVARIANT ChunkingInvariance
 INVARIANT NoResidue
